@@ -401,5 +401,100 @@ end JV.Generated
 EXTRA_RENDERERS = []
 
 
+
+
+# --------------------------------------------------------------------------- dtype tables (C03 / C15 / C20)
+
+
+def dtype_tables(facts):
+    """evaluate the module-level assignments of _array_types.py symbolically: string constants,
+    list displays, `+` of lists, names; `X = _make_dtype(expr, "Name")` defines a category"""
+    tree = parse("_array_types.py")
+    env = {}
+    cats = {}
+    unknown = []
+
+    def ev(node):
+        if isinstance(node, ast.Constant) and isinstance(node.value, str):
+            return node.value
+        if isinstance(node, ast.Name):
+            if node.id == "_any_dtype":
+                return "ANY"
+            if node.id in env:
+                return env[node.id]
+            raise KeyError(node.id)
+        if isinstance(node, (ast.List, ast.Tuple)):
+            return [ev(e) for e in node.elts]
+        if isinstance(node, ast.BinOp) and isinstance(node.op, ast.Add):
+            a, b = ev(node.left), ev(node.right)
+            if isinstance(a, list) and isinstance(b, list):
+                return a + b
+        raise ValueError(ast.dump(node)[:80])
+
+    for node in tree.body:
+        if isinstance(node, ast.Assign) and len(node.targets) == 1 and isinstance(node.targets[0], ast.Name):
+            nm = node.targets[0].id
+            v = node.value
+            if call_name(v) == "_make_dtype" and len(v.args) == 2:
+                try:
+                    d = ev(v.args[0])
+                    cname = ev(v.args[1])
+                    cats[cname] = d if (d == "ANY" or isinstance(d, list)) else [d]
+                    if nm != cname:
+                        unknown.append(f"{nm} bound to category named {cname}")
+                except (KeyError, ValueError) as e:
+                    unknown.append(f"{nm}: {e}")
+            else:
+                try:
+                    env[nm] = ev(v)
+                except (KeyError, ValueError):
+                    pass
+    facts["dtype_categories"] = cats
+    facts["dtype_unknown"] = unknown
+    # the numpy-canonical-name branch in __instancecheck_str__
+    fn = find_def(tree, "_MetaAbstractArray", "__instancecheck_str__")
+    canonical = False
+    if fn is not None:
+        for node in ast.walk(fn):
+            if isinstance(node, ast.If):
+                tests = ast.dump(node.test)
+                if "np" in names_in(node.test) and "kind" in names_in(node.test) and "dtype" in names_in(node.test):
+                    for st in node.body:
+                        if isinstance(st, ast.Assign) and isinstance(st.value, ast.Attribute) and st.value.attr == "name":
+                            canonical = True
+    facts["np_canonical_name"] = canonical
+
+
+def render_dtypes(facts):
+    cats = facts["dtype_categories"]
+    rows = []
+    for name in sorted(cats):
+        d = cats[name]
+        spec = ".any" if d == "ANY" else ".names " + lean_list([lean_str(x) for x in d])
+        rows.append(f"({lean_str(name)}, {spec})")
+    txt = f"""/- GENERATED by harness/extract.py from {SRC}/_array_types.py on every run. Do not edit. -/
+import JaxVerif.Model.Core
+
+namespace JV.Generated
+
+/-- every `X = _make_dtype(dtypes, "X")` of the module, with `dtypes` evaluated symbolically -/
+def categories : List (String × DtypeSpec) :=
+  [{(',' + chr(10) + '   ').join(rows)}]
+
+/-- assignments the translator could not evaluate (must be empty) -/
+def dtypeUnknown : List String := {lean_list([lean_str(x) for x in facts['dtype_unknown']])}
+
+/-- `__instancecheck_str__` prefers `dtype.name` for NumPy dtypes of kind i/u/f/c -/
+def npCanonicalName : Bool := {lean_bool(facts['np_canonical_name'])}
+
+end JV.Generated
+"""
+    write_if_changed(os.path.join(GEN, "DtypeTables.lean"), txt)
+
+
+EXTRA_EXTRACTORS.append(dtype_tables)
+EXTRA_RENDERERS.append(render_dtypes)
+
+
 if __name__ == "__main__":
     print(json.dumps(run(), indent=1, default=str))
